@@ -16,6 +16,10 @@ pub struct Profile {
     pub w_poll: u32,
     pub w_recv: u32,
     pub w_drive: u32,
+    /// percentage of histories in which, right after the first connection is up, a QoS 1 publish
+    /// sized to leave 0..40 bytes of the transmit arena free is issued under a broker that
+    /// withholds acknowledgements: the rest of the history runs on a nearly full arena
+    pub fill_arena_pct: u32,
     pub w_disconnect: u32,
     pub w_drop: u32,
     pub w_forget: u32,
@@ -90,6 +94,7 @@ impl Default for Profile {
             w_poll: 18,
             w_recv: 2,
             w_drive: 6,
+            fill_arena_pct: 12,
             w_disconnect: 1,
             w_drop: 2,
             w_forget: 1,
@@ -292,11 +297,13 @@ pub struct Gen {
     /// sweep support: cancel the n-th emitted step (if cancel-safe) at its k-th Pending
     pub forced_cancel: Option<(usize, usize)>,
     emitted: usize,
+    /// 0 = not decided, 1 = hold the acknowledgements first, 2 = issue the filler, 3 = done / off
+    fill_stage: u8,
 }
 
 impl Gen {
     pub fn new(seed: u64, p: Profile) -> Self {
-        Gen { rng: Rng::new(seed), p, tag: 0, conns: 0, dead_ops: 0, was_live: false, next_spid: 1, steps_left: 60, forced_fault: None, forced_cancel: None, emitted: 0 }
+        Gen { rng: Rng::new(seed), p, tag: 0, conns: 0, dead_ops: 0, was_live: false, next_spid: 1, steps_left: 60, forced_fault: None, forced_cancel: None, emitted: 0, fill_stage: 0 }
     }
 
     fn cancel(&mut self) -> Option<usize> {
@@ -835,6 +842,28 @@ impl Gen {
             });
         }
         self.was_live = true;
+        // the arena filler (see `Profile::fill_arena_pct`)
+        if self.fill_stage == 0 {
+            self.fill_stage = if self.conns == 1 && v.snap.tx.retained.is_empty() && self.rng.chance(self.p.fill_arena_pct, 100) { 1 } else { 3 };
+        }
+        if self.fill_stage == 1 {
+            self.fill_stage = 2;
+            return Some(Step::Broker(BrokerAct::Policy(BrokerPolicy { acks: AckMode::Hold, ping: AckMode::Immediate, fail_pct: 0, longform_pct: 0 })));
+        }
+        if self.fill_stage == 2 {
+            self.fill_stage = 3;
+            let tx = v.log.cfg.tx;
+            let leave = self.rng.below(41);
+            // PUBLISH "f": 1 + remaining-length bytes + 2 + 1 (topic) + 2 (identifier) + 1 (property length) + payload
+            let total = tx.saturating_sub(leave);
+            let rlb = if total >= 16_384 + 4 { 3 } else if total >= 128 + 3 { 2 } else { 1 };
+            let overhead = 1 + rlb + 3 + 2 + 1;
+            let fits_limit = v.snap.maximum_packet_size.is_none_or(|m| total <= m as usize);
+            if total > overhead && total <= 70_000 && fits_limit && v.can_publish[1] {
+                self.tag += 1;
+                return Some(Step::Publish(PubSpec { topic: "f".into(), payload: PayloadSpec::Fill { len: total - overhead, tag: self.tag, ascii: false }, qos: 1, retain: false, props: vec![], correlate: None, cancel_at: None }));
+            }
+        }
         Some(self.live_step(v))
     }
 }
